@@ -14,6 +14,7 @@ CONSTANTS
   TaxNum = 0
   TaxDen = 1
   Kinds = {}
+  MaxZH = 0
 INVARIANTS
   Monitor
   Coverage
